@@ -433,14 +433,169 @@ def translate_functions(repo) -> str:
     return "\n".join(out)
 
 
+# ---------------------------------------------------------------------------
+# C16: _apply_changes_to_lines, the add-ignores replacement, ITERATION_LIMIT
+
+class _ListExpr:
+    """list-of-lines / list-of-int expressions of _apply_changes_to_lines."""
+
+    def __init__(self, fname):
+        self.fname = fname
+
+    def nat(self, e, env):
+        if isinstance(e, ast.Name) and env.get(e.id) == "nat":
+            return e.id
+        if isinstance(e, ast.Constant) and isinstance(e.value, int) and not isinstance(e.value, bool) and e.value >= 0:
+            return str(e.value)
+        if isinstance(e, ast.BinOp) and isinstance(e.op, ast.Sub):
+            return f"({self.nat(e.left, env)} - {self.nat(e.right, env)})"
+        if isinstance(e, ast.Call) and isinstance(e.func, ast.Name) and e.func.id == "max" and len(e.args) == 1 and not e.keywords:
+            return f"(list_max {self.lst(e.args[0], env)})"
+        _fail(e, "unsupported index expression", self.fname)
+
+    def lst(self, e, env):
+        if isinstance(e, ast.Name) and env.get(e.id) in ("lines", "nats"):
+            return e.id
+        if isinstance(e, ast.Attribute) and isinstance(e.value, ast.Name) and env.get(e.value.id) == "change":
+            if e.attr == "linenos_to_delete":
+                return f"(r_del {e.value.id})"
+        if isinstance(e, ast.Call) and isinstance(e.func, ast.Name):
+            if e.func.id == "list" and len(e.args) == 1 and not e.keywords:
+                return self.lst(e.args[0], env)
+            if (e.func.id == "sorted" and len(e.args) == 1 and len(e.keywords) == 1 and e.keywords[0].arg == "reverse"
+                    and isinstance(e.keywords[0].value, ast.Constant) and e.keywords[0].value.value is True):
+                return f"(sort_desc {self.lst(e.args[0], env)})"
+        if isinstance(e, ast.List) and e.elts and all(isinstance(x, ast.Starred) for x in e.elts):
+            return "(" + " ++ ".join(self.lst(x.value, env) for x in e.elts) + ")"
+        if isinstance(e, ast.Subscript) and isinstance(e.slice, ast.Slice) and e.slice.step is None:
+            sl = e.slice
+            if sl.lower is None and sl.upper is not None:
+                return f"(firstn {self.nat(sl.upper, env)} {self.lst(e.value, env)})"
+            if sl.upper is None and sl.lower is not None:
+                return f"(skipn {self.nat(sl.lower, env)} {self.lst(e.value, env)})"
+        _fail(e, "unsupported list expression", self.fname)
+
+
+def translate_apply(repo) -> str:
+    fname = "node_visitor.py"
+    nv = _module(repo, fname)
+    lim = _toplevel_assign(nv, "ITERATION_LIMIT", fname)
+    if not (isinstance(lim, ast.Constant) and isinstance(lim.value, int)):
+        _fail(lim, "ITERATION_LIMIT is not an integer literal", fname)
+    # the repeat loop of main(): `while cls._run_and_apply_changes(kwargs, autofix=True):` ... assert iteration <= ITERATION_LIMIT
+    mainf = _find_method(nv, "BaseNodeVisitor", "main", fname)
+    loops = [n for n in ast.walk(mainf) if isinstance(n, ast.While)]
+    if not (len(loops) == 1 and ast.unparse(loops[0].test) == "cls._run_and_apply_changes(kwargs, autofix=True)"
+            and any(isinstance(x, ast.Assert) and ast.unparse(x.test) == "iteration <= ITERATION_LIMIT" for x in loops[0].body)):
+        raise TranslateError("node_visitor.py: main(): the repeat_until_no_errors loop changed shape")
+    ap = _find_method(nv, "BaseNodeVisitor", "_apply_changes_to_lines", fname)
+    ex = _ListExpr(fname)
+    body = [s_ for s_ in ap.body if not (isinstance(s_, ast.Expr) and isinstance(s_.value, ast.Constant))]
+    if not (len(body) == 3 and isinstance(body[0], ast.Assign) and ast.unparse(body[0].targets[0]) == "lines"
+            and isinstance(body[1], ast.If) and ast.unparse(body[1].test) == "changes" and not body[1].orelse
+            and isinstance(body[2], ast.Return) and ast.unparse(body[2].value) == "lines"):
+        _fail(ap, "_apply_changes_to_lines: unexpected top-level shape", fname)
+    env = {"input_lines": "lines"}
+    out = [
+        "(* GENERATED by harness/translate/lines.py from pyanalyze/node_visitor.py",
+        "   (_apply_changes_to_lines, the add_ignores branch of show_error, ITERATION_LIMIT).  Do not edit. *)",
+        "From Coq Require Import List Bool NArith ZArith Arith.",
+        "Import ListNotations.",
+        "Require Import PV.Lines.Text PV.Lines.Suppress PV.Lines.Fixer PV.Gen.Codes.",
+        "",
+        f"Definition iteration_limit : nat := {lim.value}.",
+        "",
+        "Definition apply_changes (changes : list replacement) (input_lines : file) : file :=",
+        f"  let lines := {ex.lst(body[0].value, env)} in",
+        "  match changes with",
+        "  | [] => lines",
+    ]
+    env["lines"] = "lines"
+    inner = body[1].body
+    if not (len(inner) == 3 and ast.unparse(inner[0]) == "change = changes[0]" and ast.unparse(inner[1]) == "additions = change.lines_to_add"
+            and isinstance(inner[2], ast.If) and ast.unparse(inner[2].test) == "additions is not None" and not inner[2].orelse):
+        _fail(body[1], "_apply_changes_to_lines: unexpected `if changes:` body", fname)
+    out += ["  | change :: _ =>", "      match r_add change with", "      | None => lines", "      | Some additions =>"]
+    env.update(change="change", additions="lines")
+    loop_seen = False
+    for st_ in inner[2].body:
+        if isinstance(st_, ast.Assign) and len(st_.targets) == 1 and isinstance(st_.targets[0], ast.Name):
+            tgt = st_.targets[0].id
+            if tgt == "max_line":
+                out.append(f"          let max_line := {ex.nat(st_.value, env)} in")
+                env[tgt] = "nat"
+            elif tgt in ("lines_to_remove",):
+                out.append(f"          let {tgt} := {ex.lst(st_.value, env)} in")
+                env[tgt] = "nats"
+            elif tgt == "lines":
+                out.append(f"          let lines := {ex.lst(st_.value, env)} in")
+            else:
+                _fail(st_, "_apply_changes_to_lines: unexpected assignment", fname)
+        elif isinstance(st_, ast.For) and not st_.orelse and isinstance(st_.target, ast.Name) and len(st_.body) == 1 and isinstance(st_.body[0], ast.Delete):
+            d = st_.body[0]
+            if not (len(d.targets) == 1 and isinstance(d.targets[0], ast.Subscript) and isinstance(d.targets[0].value, ast.Name) and d.targets[0].value.id == "lines"):
+                _fail(st_, "_apply_changes_to_lines: unexpected loop body", fname)
+            env2 = dict(env)
+            env2[st_.target.id] = "nat"
+            out.append(f"          fold_left (fun lines {st_.target.id} => del_at {ex.nat(d.targets[0].slice, env2)} lines) {ex.lst(st_.iter, env)} lines")
+            loop_seen = True
+        else:
+            _fail(st_, "_apply_changes_to_lines: unexpected statement", fname)
+    if not loop_seen or not isinstance(inner[2].body[-1], ast.For):
+        raise TranslateError("node_visitor.py: _apply_changes_to_lines: the deletion loop must be the last statement")
+    out += ["      end", "  end.", ""]
+
+    # ---- show_error: the add_ignores branch (statement pins) -------------
+    se = _find_method(nv, "BaseNodeVisitor", "show_error", fname)
+    blk = [s_ for s_ in se.body if isinstance(s_, ast.If) and ast.unparse(s_.test) == "lineno is not None and self._changes_for_fixer is not None"]
+    if len(blk) != 1 or blk[0].orelse:
+        raise TranslateError("node_visitor.py: show_error: the fixer block was not found")
+    b = blk[0].body
+    if not (len(b) == 2 and isinstance(b[0], ast.If) and ast.unparse(b[0].test) == "self.add_ignores"
+            and ast.unparse(b[1]) == "self._changes_for_fixer[self.filename].append(replacement)"):
+        _fail(blk[0], "show_error: unexpected fixer block", fname)
+    want = [
+        "this_line = lines[lineno - 1]",
+        "indentation = analysis_lib.get_indentation(this_line)",
+        "if error_code is not None:\n    ignore = f'{ignore_comment}[{error_code.name}]'\nelse:\n    ignore = ignore_comment",
+        "replacement = Replacement([lineno], ['{}{}\\n'.format(' ' * indentation, ignore), this_line], str(e))",
+    ]
+    got = [ast.unparse(x) for x in b[0].body]
+    if got != want:
+        raise TranslateError("node_visitor.py: show_error: the add_ignores branch changed:\n" + "\n".join(got))
+    al = _module(repo, "analysis_lib.py")
+    gi = [n for n in al.body if isinstance(n, ast.FunctionDef) and n.name == "get_indentation"]
+    gi_body = [ast.unparse(x) for x in gi[0].body if not (isinstance(x, ast.Expr) and isinstance(x.value, ast.Constant))] if gi else None
+    if gi_body != ["if len(line.lstrip()) == 0:\n    return 0", "return len(line) - len(line.lstrip())"]:
+        raise TranslateError(f"analysis_lib.py: get_indentation changed: {gi_body}")
+    out += [
+        "(* analysis_lib.get_indentation *)",
+        "Definition get_indentation (line : line) : nat :=",
+        "  if Nat.eqb (length (lstrip line)) 0 then 0 else length line - length (lstrip line).",
+        "",
+        "(* show_error, `if self.add_ignores:` *)",
+        "Definition add_ignore_repl (lines : file) (lineno : nat) (error_code : option N) : replacement :=",
+        "  let this_line := py_index lines (Z.of_nat lineno - 1)%Z in",
+        "  let indentation := get_indentation this_line in",
+        "  let ignore := match error_code with Some c0 => tag IGNORE_COMMENT code_name c0 | None => IGNORE_COMMENT end in",
+        "  mk_repl [lineno] (Some [repeat space_char indentation ++ ignore; this_line]).",
+        "",
+    ]
+    return "\n".join(out)
+
+
 def gen_files(repo) -> dict:
     return {"Codes.v": translate_codes(repo), "SuppressGen.v": translate_functions(repo)}
+
+
+def gen_files_c16(repo) -> dict:
+    return {"Codes.v": translate_codes(repo), "ApplyGen.v": translate_apply(repo)}
 
 
 if __name__ == "__main__":
     import sys
 
     r = sys.argv[1] if len(sys.argv) > 1 else "/repo"
-    for k, v in gen_files(r).items():
+    for k, v in {**gen_files(r), **gen_files_c16(r)}.items():
         print("(* ==== " + k + " ==== *)")
         print(v)
